@@ -1,6 +1,7 @@
 """Engine K driver: run Kani harnesses from /verif/kani/harness on a scratch copy of the working tree."""
 import json
 import os
+import resource
 import re
 import shutil
 import subprocess
@@ -47,6 +48,15 @@ def fq(name):
     return 'verif_kani::%s::%s' % (hs[name]['file'][:-3], name)
 
 
+VMEM_LIMIT = int(os.environ.get('VERIF_KANI_VMEM_GB', '14')) << 30
+
+
+def _limit():
+    # memory guard: every process of the cargo-kani tree (rustc, goto-instrument, cbmc) gets an address-space limit, so one
+    # exploding harness ends as "undecided" (CBMC reports out of memory) instead of taking the machine down (62 GB, no swap)
+    resource.setrlimit(resource.RLIMIT_AS, (VMEM_LIMIT, VMEM_LIMIT))
+
+
 def kani_cmd(harnesses, jobs, extra=(), harness_timeout=None):
     cmd = ['cargo', 'kani', '-Z', 'stubbing', '-Z', 'unstable-options', '--features', FEATURES, '--exact']
     if jobs and jobs > 1:
@@ -61,31 +71,28 @@ def kani_cmd(harnesses, jobs, extra=(), harness_timeout=None):
 def parse_output(out):
     """-> {harness: {status, failed_checks[], unwinding_failed, cover_satisfied, checks, time_s}}.
     Handles both the sequential format and the thread-tagged format of `-j N`."""
-    res = {}
     cur = {}            # thread -> harness name
     blocks = {}         # harness -> list of lines
     active = None
     for ln in out.split('\n'):
         m = re.match(r'^(?:Thread (\d+): )?Checking harness (\S+?)\.\.\.', ln)
         if m:
-            t = m.group(1) or '0'
+            t = m.group(1) or 'seq'
             cur[t] = m.group(2).split('::')[-1]
             blocks.setdefault(cur[t], [])
             active = cur[t] if m.group(1) is None else None
             continue
         m = re.match(r'^Thread (\d+):\s*(.*)$', ln)
         if m:
-            t = m.group(1)
-            active = cur.get(t)
+            active = cur.get(m.group(1))
             if active is not None and m.group(2):
                 blocks[active].append(m.group(2))
             continue
         if active is not None:
             blocks[active].append(ln)
-            if ln.startswith('Verification Time:') and cur:
-                # in thread mode a block ends here
-                if any(k != '0' for k in cur) or True:
-                    pass
+            if ln.startswith('Verification Time:') and 'seq' not in cur:
+                active = None
+    res = {}
     for name, lines in blocks.items():
         part = '\n'.join(lines)
         st = re.search(r'VERIFICATION:- (SUCCESSFUL|FAILED)', part)
@@ -93,10 +100,11 @@ def parse_output(out):
         ncheck = re.search(r'\*\* (\d+) of (\d+) failed', part)
         cov = re.search(r'\*\* (\d+) of (\d+) cover properties satisfied', part)
         tm = re.search(r'Verification Time: ([\d.]+)s', part)
-        timed_out = 'timed out' in part.lower() or 'timeout' in part.lower()
+        if 'CBMC failed' in part or 'run out of memory' in part or 'CBMC timed out' in part:
+            st = None
         res[name] = {
             'name': name,
-            'status': st.group(1) if st else ('TIMEOUT' if timed_out else 'UNKNOWN'),
+            'status': st.group(1) if st else 'NO-VERDICT',   # timeout, memory limit, crash
             'failed_checks': failed[:12],
             'unwinding_failed': any('unwinding assertion' in f for f in failed),
             'checks': int(ncheck.group(2)) if ncheck else 0,
@@ -121,7 +129,7 @@ def run_harnesses(names, repo, outdir, prop=None, tier='quick', jobs=None, timeo
     t0 = time.time()
     try:
         try:
-            p = subprocess.run(cmd, cwd=dst, env=env, capture_output=True, text=True, timeout=timeout)
+            p = subprocess.run(cmd, cwd=dst, env=env, capture_output=True, text=True, timeout=timeout, preexec_fn=_limit)
         except subprocess.TimeoutExpired:
             raise Undecided('kani timed out after %ds on %s' % (timeout, names))
         out = p.stdout + '\n' + p.stderr
@@ -143,8 +151,8 @@ def run_harnesses(names, repo, outdir, prop=None, tier='quick', jobs=None, timeo
                 continue
             if h['unwinding_failed'] and all('unwinding assertion' in f for f in h['failed_checks']):
                 raise Undecided('unwinding bound too small in harness %s' % n)
-            if h['status'] in ('UNKNOWN', 'TIMEOUT'):
-                raise Undecided('kani gave no verdict for %s: %s' % (n, h['raw_tail'][-400:]))
+            if h['status'] == 'NO-VERDICT':
+                raise Undecided('kani gave no verdict for %s (timeout / memory limit / crash): %s' % (n, h['raw_tail'][-400:]))
             f = {'obligation': 'kani.%s' % n, 'props': [prop] if prop else [], 'harness': n, 'kind': 'kani harness FAILED',
                  'kani_output': '\n'.join(h['failed_checks']) + '\n' + h['raw_tail'], 'function': None}
             # concrete counterexample + native playback
@@ -179,7 +187,7 @@ def counterexample(name, repo, outdir, scratch=None):
             lib = os.path.join(dst, 'src', 'lib.rs')
             open(lib, 'w').write(open(lib).read().replace(HARNESS_DIR, hcopy))
         cmd = kani_cmd([name], 1, ['-Z', 'concrete-playback', '--concrete-playback=print'])
-        p = subprocess.run(cmd, cwd=dst, env=env, capture_output=True, text=True, timeout=1800)
+        p = subprocess.run(cmd, cwd=dst, env=env, capture_output=True, text=True, timeout=1800, preexec_fn=_limit)
         out = p.stdout + p.stderr
         m = re.search(r'```\s*\n(.*?#\[test\].*?)```', out, re.S)
         rec = {'harness': name, 'cmd': ' '.join(cmd), 'failing_input_found': False}
